@@ -1,12 +1,12 @@
 package main
 
 import (
-	"regexp"
 	"fmt"
 	"go/ast"
 	"go/constant"
 	"go/token"
 	"go/types"
+	"regexp"
 	"sort"
 	"strings"
 
@@ -631,9 +631,10 @@ func normCondIn(p *packagesPackage, fd *ast.FuncDecl, e ast.Expr) string {
 // interface guard an error exit, identified by where their operands come from
 // rather than by how the locals are called or where the test stands (the
 // function itself or a helper only it uses):
-//   LessThan(parsed start, base minimum)            = GetStart(0)
-//   GreaterThan(parsed end, base maximum)           = GetEnd(Len()-1)
-//   LessThan(start, minimum of the current sub-range run) = GetStart(index)
+//
+//	LessThan(parsed start, base minimum)            = GetStart(0)
+//	GreaterThan(parsed end, base maximum)           = GetEnd(Len()-1)
+//	LessThan(start, minimum of the current sub-range run) = GetStart(index)
 func c13RangeNarrowing(w *World, r *Report, pos token.Pos) {
 	root := w.SSAFunc(w.Method("compile", "Compiler", "createRangeBdry"))
 	cerr := w.Method("compile", "Compiler", "error")
@@ -821,9 +822,11 @@ func c13RangeNarrowing(w *World, r *Report, pos token.Pos) {
 
 // c13LengthNarrowing (R13.4, getLength): the same three narrowing tests as for
 // ranges, on integers, identified by where the operands come from:
-//   parsed start  <  base minimum  (first base part's Start)            ⇒ error
-//   parsed end    >  base maximum  (last base part's End)               ⇒ error
-//   resolved start <  start of the current run of base parts            ⇒ error
+//
+//	parsed start  <  base minimum  (first base part's Start)            ⇒ error
+//	parsed end    >  base maximum  (last base part's End)               ⇒ error
+//	resolved start <  start of the current run of base parts            ⇒ error
+//
 // and inside the scan over the base parts every comparison against a base
 // part uses the *resolved* bound (the parsed one is 0 for min/max).
 func c13LengthNarrowing(w *World, r *Report, pos token.Pos) {
@@ -1057,8 +1060,12 @@ func c13LengthNarrowing(w *World, r *Report, pos token.Pos) {
 		what string
 		pred func(c cmp) bool
 	}{
-		{"parsed start < base minimum", func(c cmp) bool { return has(c.left, "parse.Lb[i].Start") && has(c.right, "schema.Lb[0].Start") && !c.inScan }},
-		{"parsed end > base maximum", func(c cmp) bool { return has(c.right, "parse.Lb[i].End") && has(c.left, "schema.Lb[last].End") && !c.inScan }},
+		{"parsed start < base minimum", func(c cmp) bool {
+			return has(c.left, "parse.Lb[i].Start") && has(c.right, "schema.Lb[0].Start") && !c.inScan
+		}},
+		{"parsed end > base maximum", func(c cmp) bool {
+			return has(c.right, "parse.Lb[i].End") && has(c.left, "schema.Lb[last].End") && !c.inScan
+		}},
 		{"resolved start < start of the current run of base parts", func(c cmp) bool {
 			return has(c.left, "parse.Lb[i].Start") && has(c.left, "schema.Lb[0].Start") && has(c.right, "schema.Lb[i].Start")
 		}},
